@@ -1,13 +1,15 @@
 #!/bin/sh
 # seed_matrix.sh: run every registered check (quick) against every seeded change; summary in seeded/MATRIX.md
 ALL=C01,C02,C03,C04,C05,C06,C07,C08,C09,C10,C11,C12,C13,C14,C15,C16,C17,C18,C19,C20
-for d in seeded/C*-*; do
+PAT=${1:-*}
+for d in seeded/C*-$PAT; do
   python3 tools/run_seeded.py $d --props $ALL > $d/matrix.log 2>&1
 done
-python3 - <<'PY'
+PAT=$PAT python3 - <<'PY'
 import json, glob, os
 rows=[]
-for d in sorted(glob.glob('seeded/C*-*')):
+import sys
+for d in sorted(glob.glob('seeded/C*-'+os.environ.get('PAT','*'))):
     r=json.load(open(os.path.join(d,'result_quick.json')))['results']
     hit=[k.split('@')[0] + ('*' if any('no-failing-input-found' in v for v in r[k]['violation']) else '') for k in sorted(r) if r[k]['exit']!=0]
     m=json.load(open(os.path.join(d,'meta.json')))
